@@ -99,6 +99,16 @@ ADDENDA["C12"]["tech"] += "; Go race detector on one-shot runs"
 ADDENDA["C14"]["text"] += " Since the sixth round the plans are also observed as executed: generated C++ and Python (copy_to, list, Fortran order) write covering values that must decode to the same values under the reference plan."
 ADDENDA["C14"]["tech"] += "; executed layout of generated C++ and Python against the reference codec"
 ADDENDA["C15"]["text"] += " and aliases reachable only through one kind of position (map key, vector item, type argument, union case, enum base, array item)."
+ADDENDA["C02"]["text"] += " The Python NDJSON writer is also fed Fortran-ordered arrays."
+ADDENDA["C03"]["text"] += " Adjacent stream steps in every combination of empty / non-empty streams run through all NDJSON / binary chains."
+ADDENDA["C04"]["text"] += " Unions whose cases are named aliases are among the bases."
+ADDENDA["C10"]["text"] += " Near-identical type pairs are compared as union cases, under one tag, in switch patterns and across versions; degenerate version pairs (one side defines nothing)."
+ADDENDA["C13"]["text"] += " The Python / C++ files generated for every layout consist of the same lines (per-definition text does not depend on definition order); fixed lengths at the integer boundaries in both spellings."
+ADDENDA["C15"]["text"] += " A reader regenerated over the output of the model before a same-length edit must refuse the earlier model's streams."
+ADDENDA["C12"]["text"] += " Contents generated over the output of earlier contents equal a generation into an empty directory."
+ADDENDA["C16"] = dict(text=ADDENDA["C16"]["text"] + " Previous-version streams are read by the newest (converting) reader at every cut point.", tech=ADDENDA["C16"]["tech"])
+ADDENDA["C18"]["text"] += " A loader whose threads are all asleep without consuming CPU for 20 s is judged blocked (deadlock)."
+ADDENDA["C19"]["text"] += " Chained computed fields and the computed fields of a generic record reached through two instantiations; generated C++ compiled with -Werror=return-local-addr."
 ADDENDA["C18"]["text"] += " Git imports are served offline through an insteadOf rewrite: several commits of one repository in one load, cold and warm cache."
 for _pid, _a in ADDENDA.items():
     CHECKS[_pid]["text"] += _a["text"]
